@@ -316,3 +316,44 @@ def random_scripts(seed, n, n_ops, S_choices, tid0, profile="mixed", sweep="full
         ops = g.script(n_ops, far=(far if i % 3 == 0 else 0))
         res.append({"tid": tid0 + i, "cfg": cfg_for(rng.randrange(1000), S, kinds or KINDS), "ops": ops, "sweep": sweep})
     return res
+
+
+def kind_churn_scripts(seed, per_kind, n_ops, tid0, kinds=None, far=False):
+    """one storage, a handful of fixed live entities, long runs of insert / remove /
+    clear / drain / lookups: exercises the internal bookkeeping of each storage
+    kind (dense tables, default fillers, uninitialised slots) over long histories"""
+    res = []
+    kinds = kinds or KINDS
+    tid = tid0
+    for ki, kind in enumerate(kinds):
+        for j in range(per_kind):
+            rng = random.Random((seed * 7919 + ki * 104729 + j * 31) & 0xFFFFFFFF)
+            pool = [0, 1, 2, 3, 4, 5, 6, 7] if not (far and j % 2) else [0, 1, 63, 64, 65, 127, 128, 4095, 4096]
+            keep = sorted(rng.sample(pool, rng.randint(3, 6)))
+            nh = len(keep)
+            ops = [{"o": "prealloc", "n": keep[-1] + 1, "keep": keep}]
+            for _ in range(n_ops):
+                x = rng.random()
+                h = rng.randrange(nh)
+                if x < 0.30:
+                    ops.append({"o": "sop", "path": rng.choice(PATHS["insert"] + ["or_insert"]), "s": 0, "h": h})
+                elif x < 0.55:
+                    ops.append({"o": "sop", "path": rng.choice(PATHS["remove"]), "s": 0, "h": h})
+                elif x < 0.62:
+                    ops.append({"o": "wop", "k": "clear", "s": 0})
+                elif x < 0.67:
+                    ops.append({"o": "wop", "k": "drain", "s": 0, "n": rng.choice([-1, 1, 2])})
+                elif x < 0.80:
+                    ops.append({"o": "sop", "path": rng.choice(PATHS["read"]), "s": 0, "h": h})
+                elif x < 0.88:
+                    ops.append({"o": "sop", "path": rng.choice(PATHS["write"] + ["gmod"]), "s": 0, "h": h, "w": rng.random() < 0.8})
+                elif x < 0.93:
+                    ops.append({"o": "wop", "k": "joinmut", "s": 0, "v": rng.choice(["join", "lend", "par"]), "sel": 0xffff, "wsel": rng.randrange(1 << 16)})
+                elif x < 0.97:
+                    ops.append({"o": "wop", "k": rng.choice(["slice", "slicemut", "join", "count", "restrict"]), "s": 0,
+                                "v": rng.choice(["read", "mut_join", "mut_lend", "lend", "join"]), "sel": rng.randrange(1 << 16), "wsel": rng.randrange(1 << 16)})
+                else:
+                    ops.append({"o": "wop", "k": "setemit", "s": 0, "b": rng.random() < 0.6})
+            res.append({"tid": tid, "cfg": {"kinds": [kind], "reg": [REGS[j % len(REGS)]]}, "ops": ops, "sweep": "full"})
+            tid += 1
+    return res
